@@ -210,6 +210,7 @@ type request struct {
 	// statement says "client IP"; the peer address and the address GetClientIP() reports are both a reading of that,
 	// so either is accepted - the same one in REQ_BEG and REQ_END - and nothing else
 	proxyHeader, proxyValue, proxyIP string
+	getOnly                          bool // the path belongs to a route registered for GET alone
 	matched                          bool
 	b                                behaviour
 	// observed
@@ -431,7 +432,13 @@ func genBatch(t *rapid.T) *batch {
 			}
 		}
 		tail := rapid.SampledFrom([]string{"", "?q=1", "?a=b&c=d", "/sub/path", "%20x", "?x=%22quoted%22"}).Draw(t, "uriTail")
-		if rq.matched {
+		if rapid.IntRange(0, 3).Draw(t, "routeForGETOnly") == 0 {
+			// a route registered for GET alone: any other method on its path - HEAD and OPTIONS included - is a request
+			// like any other that matches nothing, and is logged with the method it came with
+			rq.uri = fmt.Sprintf("/g/%d%s", i, strings.TrimPrefix(tail, "/sub/path"))
+			rq.matched = rq.method == "GET"
+			rq.getOnly = true
+		} else if rq.matched {
 			rq.uri = fmt.Sprintf("/h/%d%s", i, strings.TrimPrefix(tail, "/sub/path"))
 		} else {
 			rq.uri = fmt.Sprintf("/nope/%d%s", i, tail)
@@ -495,6 +502,7 @@ func runBatch(b *batch, realServer bool) string {
 	mux.HandleRelay(lg.Relay)
 	mux.Handle("/h/:id", httpd.MethodAll, handlerFor())
 	mux.Handle("/h/:id/*", httpd.MethodAll, handlerFor())
+	mux.Handle("/g/:id", "GET", handlerFor())
 	serve := func(rq *request) {
 		u, err := url.ParseRequestURI(rq.uri)
 		if err != nil {
@@ -752,6 +760,9 @@ func TestBatches(t *testing.T) {
 			}
 			if !rq.matched {
 				ev.Label("unmatched_route")
+			}
+			if rq.getOnly && !rq.matched {
+				ev.Label("other_method_on_a_GET-only_route:" + rq.method)
 			}
 			if rq.proxyHeader != "" {
 				ev.Label("request_names_another_client_address_in_" + rq.proxyHeader)
